@@ -528,3 +528,270 @@ Section Theorems.
     generate' io coe false (sep0 ++ assemble l ++ m ++ rest) = (map fst l, Some e).
   Proof. intros. apply scan_raises; auto. Qed.
 End Theorems.
+
+(* ---------------------------------------------------------------------- *)
+(* fuel; the declared-length-0 loop; further recovery paths                *)
+(* ---------------------------------------------------------------------- *)
+
+Section More.
+  Variable process process_info : list byte -> result msginfo.
+  Variable filt : msginfo -> result bool.
+  Variable hook : msginfo -> result unit.
+
+  Notation step' := (step process process_info filt hook).
+  Notation scan' := (scan process process_info filt hook).
+  Notation generate' := (generate process process_info filt hook).
+  Notation full_ok' := (full_ok process hook).
+  Notation info_ok' := (info_ok process_info).
+  Notation full_fails' := (full_fails process).
+  Notation info_fails' := (info_fails process_info).
+  Notation behaves' := (behaves process process_info filt hook).
+
+  (* fuel is a model artefact: a run that did not exhaust it is unchanged by more *)
+  Theorem scan_fuel_mono io coe fl : forall f s idx f',
+    snd (scan' io coe fl f s idx) <> Some EFuel -> f <= f' ->
+    scan' io coe fl f' s idx = scan' io coe fl f s idx.
+  Proof.
+    induction f as [|f IH]; intros s idx f' H Hle; [cbn in H; congruence|].
+    destruct f' as [|f']; [lia|].
+    rewrite !scan_S in *.
+    destruct (idx <? length s); [|reflexivity].
+    destruct (find sig s idx) as [i|]; [|reflexivity].
+    destruct (step' io coe fl (skipn i s)) as [p adv|adv|e]; [| |reflexivity].
+    - cbn [cons_piece snd] in H. unfold cons_piece. rewrite IH by (assumption || lia). reflexivity.
+    - apply IH; [assumption|lia].
+  Qed.
+
+  (* Outside the given properties, recorded only: metadata-only mode, a message
+     whose declared total length is 0.  serialized_bytes is the empty slice, the
+     position does not move, the same (empty) message is yielded again and again:
+     the Python generator never finishes; the model yields [fuel] empty pieces and
+     runs out of fuel, for every fuel. *)
+  Theorem zero_declared_length_no_progress coe s i mi :
+    i < length s -> find sig s i = Some i ->
+    process_info (skipn i s) = Ok mi -> mi_declared mi = 0 ->
+    forall fuel, scan' true coe false fuel s i = (repeat (@nil byte) fuel, Some EFuel).
+  Proof.
+    intros Hi Hf Hp Hd fuel. induction fuel as [|f IH]; [reflexivity|].
+    rewrite scan_S. destruct (Nat.ltb_spec i (length s)) as [_|]; [|lia].
+    rewrite Hf. unfold step, attempt, decode_step, piece_of. rewrite Hp, Hd.
+    cbn [firstn length]. rewrite Nat.add_0_r, IH. reflexivity.
+  Qed.
+
+  (* the same in full mode on the recovery path: full decode fails with a library
+     error, the metadata-only decode declares length 0: idx_start += 0 *)
+  Theorem zero_declared_length_no_progress_recover s i e mi :
+    i < length s -> find sig s i = Some i ->
+    process (skipn i s) = Err e -> is_lib_err e = true ->
+    process_info (skipn i s) = Ok mi -> mi_declared mi = 0 ->
+    forall fuel, scan' false true false fuel s i = ([], Some EFuel).
+  Proof.
+    intros Hi Hf Hp He Hpi Hd fuel. induction fuel as [|f IH]; [reflexivity|].
+    rewrite scan_S. destruct (Nat.ltb_spec i (length s)) as [_|]; [|lia].
+    rewrite Hf. unfold step, attempt, decode_step, recover. rewrite Hp, He, Hpi, Hd.
+    now rewrite Nat.add_0_r.
+  Qed.
+
+  (* the other two recovery paths advance by ONE byte; the scanner then searches
+     the rest of the damaged message, so the others are delivered exactly only if
+     that rest (with the following separator) holds no signature *)
+  Lemma behaves_skip_one (io : bool) m sp e :
+    starts_sig m -> is_lib_err e = true ->
+    (if io then info_fails' m e
+     else full_fails' m e /\ exists e', is_lib_err e' = true /\ info_fails' m e') ->
+    nosig (skipn 1 m ++ sp) ->
+    behaves' io true false m sp BSkip.
+  Proof.
+    intros Hm He Hf Hn. pose proof (starts_sig_length _ Hm) as Hlen.
+    exists 1. repeat split; [lia|lia| |exact Hn].
+    intros t. unfold step, attempt, decode_step, recover. destruct io.
+    - now rewrite Hf, He.
+    - destruct Hf as (Hf & e' & He' & Hi). now rewrite Hf, He, Hi, He'.
+  Qed.
+
+  Theorem scan_continue_skips_by_one (io : bool) (good : list byte -> bool) sep0 l :
+    nosig sep0 ->
+    Forall (fun x => starts_sig (fst x) /\ nosig (snd x) /\
+              if good (fst x) then valid_msg process process_info hook io (fst x)
+              else (exists e, is_lib_err e = true /\
+                     if io then info_fails' (fst x) e
+                     else full_fails' (fst x) e /\
+                          exists e', is_lib_err e' = true /\ info_fails' (fst x) e') /\
+                   nosig (skipn 1 (fst x) ++ snd x)) l ->
+    generate' io true false (sep0 ++ assemble l) = (filter good (map fst l), None).
+  Proof.
+    intros Hsep Hl.
+    rewrite <- (map_fst_tag good l) at 1.
+    rewrite generate_items; [apply expected_tag| |assumption].
+    apply Forall_map. eapply Forall_impl; [|exact Hl].
+    intros [m sp] (Hm & Hsp & Hv). repeat split; [exact Hm|exact Hsp|].
+    cbn [tag fst snd] in *. destruct (good m).
+    - now apply behaves_deliver.
+    - destruct Hv as [(e & He & Hf) Hn]. now apply (behaves_skip_one io m sp e).
+  Qed.
+End More.
+
+(* ---------------------------------------------------------------------- *)
+(* non-vacuity: a toy decoder satisfying the hypotheses                    *)
+(* ---------------------------------------------------------------------- *)
+
+Lemma nosig_dec s : find_from sig s 0 = None -> nosig s.
+Proof.
+  intros H (a & b & ->). revert H. generalize 0.
+  induction a as [|x a IH]; intros k; rewrite find_from_eq.
+  - cbn [app]. now rewrite prefixb_app.
+  - destruct (prefixb sig ((x :: a) ++ sig ++ b)); [discriminate|]. apply IH.
+Qed.
+
+Module Toy.
+  (* toy message: 'BUFR' n k body... '7' with n = total length, k = a category *)
+  Definition info (s : list byte) : result msginfo :=
+    if prefixb sig s then
+      match skipn 4 s with
+      | n :: k :: _ =>
+        if N.to_nat n - 1 <=? length s then Ok (MsgInfo (N.to_nat n - 1) (N.to_nat n) [k])
+        else Err EBitRead
+      | _ => Err EBitRead
+      end
+    else Err ELib.
+
+  Definition full (s : list byte) : result msginfo :=
+    match info s with
+    | Err e => Err e
+    | Ok mi =>
+      if mi_declared mi <=? length s then
+        if N.eqb (nth 5 s 0%N) 99%N then Err EAssert                 (* a non-library exception *)
+        else if N.eqb (nth (mi_declared mi - 1) s 0%N) 55%N
+             then Ok (MsgInfo (mi_declared mi) (mi_declared mi) (mi_meta mi))
+             else Err ELib                                         (* damaged stop byte *)
+      else Err EBitRead
+    end.
+
+  Definition filt (mi : msginfo) : result bool :=
+    match mi_meta mi with [k] => Ok (N.eqb k 1%N) | _ => Err EAttr end.
+  Definition hook (_ : msginfo) : result unit := Ok tt.
+
+  Definition gen := generate full info filt hook.
+
+  (* body contains 'BUFR' and '77' *)
+  Definition m1 : list byte := sig ++ [14; 1]%N ++ sig ++ [55; 55; 9]%N ++ [55]%N.
+  Definition m2 : list byte := sig ++ [8; 2; 0; 55]%N.
+  Definition bad : list byte := sig ++ [8; 1; 0; 0]%N.       (* stop byte damaged, length intact *)
+  Definition boom : list byte := sig ++ [8; 99; 0; 55]%N.    (* raises AssertionError *)
+  Definition zero : list byte := sig ++ [0; 1; 0; 55]%N.     (* declares total length 0 *)
+  Definition s0 : list byte := [1; 13; 13; 10; 66; 66; 85]%N.    (* header-like, ends with 'BBU' *)
+  Definition sA : list byte := [120; 120; 66; 85; 70]%N.          (* 'xxBUF' *)
+  Definition sB : list byte := [66]%N.                            (* 'B' *)
+  Definition pcat (m : list byte) : bool := N.eqb (nth 5 m 0%N) 1%N.
+
+  Ltac nosig_tac := apply nosig_dec; vm_compute; reflexivity.
+  Ltac sig_tac := eexists; unfold m1, m2, bad, boom, zero; reflexivity.
+
+  Lemma full_ok_m1 : full_ok full hook m1.
+  Proof. eexists; split; [intros t; reflexivity|split; reflexivity]. Qed.
+  Lemma full_ok_m2 : full_ok full hook m2.
+  Proof. eexists; split; [intros t; reflexivity|split; reflexivity]. Qed.
+  Lemma info_ok_m1 : info_ok info m1.
+  Proof. eexists; split; [intros t; reflexivity|reflexivity]. Qed.
+  Lemma info_ok_m2 : info_ok info m2.
+  Proof. eexists; split; [intros t; reflexivity|reflexivity]. Qed.
+  Lemma info_ok_bad : info_ok info bad.
+  Proof. eexists; split; [intros t; reflexivity|reflexivity]. Qed.
+  Lemma full_fails_bad : full_fails full bad ELib.
+  Proof. intros t; reflexivity. Qed.
+  Lemma full_fails_boom : full_fails full boom EAssert.
+  Proof. intros t; reflexivity. Qed.
+
+  Definition l12 := [(m1, sA); (m2, sB)].
+
+  Lemma valid_l12 io : stream_ok (valid_msg full info hook io) l12.
+  Proof.
+    repeat constructor; cbn [fst snd]; try sig_tac; try nosig_tac;
+      destruct io; cbn [valid_msg];
+      auto using full_ok_m1, full_ok_m2, info_ok_m1, info_ok_m2.
+  Qed.
+
+  (* hypotheses of scan_exact hold of a concrete stream (separators ending in
+     partial signatures, a body containing the signature), and the model
+     computes what the theorem says *)
+  Example scan_exact_nonvacuous io coe :
+    nosig s0 /\ stream_ok (valid_msg full info hook io) l12 /\
+    gen io coe false (s0 ++ assemble l12) = ([m1; m2], None).
+  Proof.
+    split; [nosig_tac|split; [apply valid_l12|]].
+    apply (scan_exact full info filt hook io coe s0 l12); [nosig_tac|apply valid_l12].
+  Qed.
+  Example scan_exact_computed :
+    gen false false false (s0 ++ assemble l12) = ([m1; m2], None) /\
+    gen true false false (s0 ++ assemble l12) = ([m1; m2], None).
+  Proof. split; vm_compute; reflexivity. Qed.
+
+  Lemma filt_l12 io : stream_ok (fun m => filt_ok full info filt hook io m (pcat m)) l12.
+  Proof.
+    repeat constructor; cbn [fst snd]; try sig_tac; try nosig_tac; destruct io.
+    - eexists; split; [intros t; reflexivity|split; reflexivity].
+    - eexists; split; [intros t; reflexivity|split; [reflexivity|apply full_ok_m1]].
+    - eexists; split; [intros t; reflexivity|split; reflexivity].
+    - eexists; split; [intros t; reflexivity|split; [reflexivity|]].
+      cbn. repeat split; [lia|]. intros [H|[]]. discriminate.
+  Qed.
+
+  Example scan_filter_nonvacuous io coe :
+    stream_ok (fun m => filt_ok full info filt hook io m (pcat m)) l12 /\
+    gen io coe true (s0 ++ assemble l12) = ([m1], None).
+  Proof.
+    split; [apply filt_l12|].
+    apply (scan_filter full info filt hook io coe pcat s0 l12); [nosig_tac|apply filt_l12].
+  Qed.
+
+  Definition good (m : list byte) : bool := N.eqb (nth 7 m 0%N) 55%N || (8 <? length m).
+  Definition l1b2 := [(m1, sA); (bad, sB); (m2, [])].
+
+  Example scan_continue_skips_nonvacuous :
+    stream_ok (fun m => if good m then full_ok full hook m
+                        else (exists e, is_lib_err e = true /\ full_fails full m e) /\ info_ok info m) l1b2 /\
+    gen false true false (s0 ++ assemble l1b2) = ([m1; m2], None).
+  Proof.
+    assert (H : stream_ok (fun m => if good m then full_ok full hook m
+                        else (exists e, is_lib_err e = true /\ full_fails full m e) /\ info_ok info m) l1b2).
+    { repeat constructor; cbn [fst snd]; try sig_tac; try nosig_tac.
+      - apply full_ok_m1.
+      - exists ELib. split; [reflexivity|apply full_fails_bad].
+      - apply info_ok_bad.
+      - apply full_ok_m2. }
+    split; [exact H|].
+    apply (scan_continue_skips full info filt hook good s0 l1b2); [nosig_tac|exact H].
+  Qed.
+
+  Example scan_stops_at_error_nonvacuous :
+    gen false false false (s0 ++ assemble l12 ++ bad ++ m2) = ([m1; m2], Some ELib).
+  Proof.
+    apply (scan_stops_at_error full info filt hook false s0 l12 bad m2 ELib);
+      [nosig_tac|apply (valid_l12 false)|sig_tac|apply full_fails_bad].
+  Qed.
+
+  (* AssertionError is not caught although continue_on_error is set (D10) *)
+  Example non_library_error_escapes_nonvacuous :
+    gen false true false (s0 ++ assemble l12 ++ boom ++ m2) = ([m1; m2], Some EAssert).
+  Proof.
+    apply (non_library_error_escapes full info filt hook false true s0 l12 boom m2 EAssert);
+      [nosig_tac|apply (valid_l12 false)|sig_tac|apply full_fails_boom|reflexivity].
+  Qed.
+  (* ... whereas the library error of [bad] at the same place is skipped *)
+  Example library_error_skipped_computed :
+    gen false true false (s0 ++ assemble l12 ++ bad ++ m2) = ([m1; m2; m2], None).
+  Proof. vm_compute; reflexivity. Qed.
+
+  (* hypothesis negation (declared length 0): recorded, not a property claim.
+     The generator yields the empty message forever; every fuel is exhausted. *)
+  Example zero_declared_length_refuted :
+    forall fuel, scan full info filt hook true false false fuel (m2 ++ zero ++ m2) 8
+                 = (repeat [] fuel, Some EFuel).
+  Proof.
+    apply (zero_declared_length_no_progress full info filt hook false (m2 ++ zero ++ m2) 8
+             (MsgInfo 0 0 [1%N])); try reflexivity. cbn; lia.
+  Qed.
+  Example zero_declared_length_generate :
+    gen true false false (m2 ++ zero ++ m2) = (m2 :: repeat [] 24, Some EFuel).
+  Proof. vm_compute; reflexivity. Qed.
+End Toy.
